@@ -13,6 +13,7 @@ import (
 
 	"git.torproject.org/pluggable-transports/snowflake.git/v2/common/encapsulation"
 	"git.torproject.org/pluggable-transports/snowflake.git/v2/common/turbotunnel"
+	"git.torproject.org/pluggable-transports/snowflake.git/v2/common/verifhook"
 	"git.torproject.org/pluggable-transports/snowflake.git/v2/common/websocketconn"
 	"github.com/gorilla/websocket"
 )
@@ -119,6 +120,7 @@ func turbotunnelMode(conn net.Conn, addr net.Addr, pconn *turbotunnel.QueuePacke
 	// time the session is established, is the IP address that should be
 	// credited for the entire KCP session.
 	clientIDAddrMap.Set(clientID, addr)
+	verifhook.Point("server.turbotunnel.after-addr-set", clientID, addr)
 
 	var wg sync.WaitGroup
 	wg.Add(2)
